@@ -282,6 +282,29 @@ def run_class_level(st: infra.Stats):
             src.append(class_src(b, 3, 0, spec0, class_order="order({%r: order(5)})" % target, own_fields=["f0", "f1", "f2"]))
             src.append(class_src(d, 3, 0, spec0, base=b, class_order="order({%r: %s})" % (target, spec_src(ov)), own_fields=[]))
             metas.append((d, names, eff, f"derived override {target}:{ov} over base order(5)"))
+    # class-level ordering that involves serialized methods (in some views the method is not an element
+    # of the view: its class-level position must still drive the fields attached to it)
+    names4 = ["f0", "f1", "f2", "m0"]
+    for perm in itertools.permutations(names4):
+        eff = {}
+        for prev, cur in zip(perm, perm[1:]):
+            eff[cur] = ("after", prev)
+        k += 1
+        cname = f"S{k}"
+        src.append(class_src(cname, 3, 1, {}, class_order=f"order({list(perm)!r})"))
+        metas.append((cname, names4, eff, f"class order({list(perm)}) with a method"))
+    for target, ov in itertools.product(names4, (("v", -1), ("v", 999), ("after", "f1"), ("before", "f1"), ("after", "m0"), ("before", "m0"))):
+        if ov[0] in ("after", "before") and ov[1] == target:
+            continue
+        for field_spec in ({}, {"f2": ("after", "m0")}, {"f0": ("before", "m0")}):
+            eff = dict(field_spec)
+            eff[target] = ov
+            if not well_founded(names4, eff):
+                continue
+            k += 1
+            cname = f"S{k}"
+            src.append(class_src(cname, 3, 1, field_spec, class_order="order({%r: %s})" % (target, spec_src(ov))))
+            metas.append((cname, names4, eff, f"class order({{{target}: {ov}}}) fields {field_spec}"))
     mod = exec_source(PRELUDE + "\n".join(src))
     gql = gql_types_of(mod, [m[0] for m in metas])
     if isinstance(gql, Exception):
